@@ -52,11 +52,7 @@ RULE = ("zoo of real networks at tiny widths (every regulariser / initialisation
 
 # keys of violations of the property on the CURRENT tree (reported as findings; see the final report)
 PENDING_FINDINGS = [
-    "Conv2dGRU/zeropad-L1:wrong-shape",
-    "Conv2dGRU/zeropad-L2:raises-RuntimeError",
-    "RIM/zeropad:raises-RuntimeError",
-    "RIM/noskip:raises-RuntimeError",
-    "XPDNet/normalize:raises-RuntimeError",
+    # listed as `known:` by the lead (not minimal patches); the oracle keeps yielding them
     "MRIVarSplitNet/unet-normunet-sense:raises-RuntimeError",
     "MRIVarSplitNet/normunet-None-zero_filled:nonfinite",
 ]
